@@ -441,6 +441,11 @@ def concrete_roundtrip(rep):
                 consts.add(node.value)
     for c_ in sorted(consts):
         docs += [{c_: 1}, {"code": c_, c_: c_}, {"options": {c_: True}, "code": c_ * 3}]
+    # line-end conventions and blanks that a "normalising" step would change: every string must come back
+    # character for character (CRLF, lone CR, LF CR, leading / trailing blanks, tabs, NEL, U+2028, BOM, NBSP,
+    # decomposed / compatibility characters)
+    for t_ in ("a = 1\r\nb = 2\r\n", "a\rb", "a\n\rb", "\r\n", " lead", "trail ", "\ttab\t", "x\x85y", "x\u2028y\u2029", "\ufeffbom", "a\u00a0b", "a  b", "A\u030a", "\u212b", "\ufb01"):
+        docs += [{"code": t_}, {"code": "x = 1\n", "title": t_}, {t_: t_}, {"options": {"name": t_}, "libs": [t_, {"k": t_}]}]
     for d in docs:
         try:
             e = encode_data(d)
